@@ -29,6 +29,8 @@ SERVICE_EDITS = ["delete", "add", "rename"]
 PARAM_EDITS = ["byte-position", "bit-length", "coded-value", "semantic", "data-type", "linked-dop"]
 MSG_COLLECTIONS = [("REQUESTS", "REQUEST"), ("POS-RESPONSES", "POS-RESPONSE"), ("NEG-RESPONSES", "NEG-RESPONSE")]
 LAYER_TAGS = ["PROTOCOL", "FUNCTIONAL-GROUP", "BASE-VARIANT", "ECU-VARIANT", "ECU-SHARED-DATA"]
+# every parameter kind that links a DOP (odxtools: ParameterWithDOP subclasses)
+DOP_PARAM_KINDS = ("VALUE", "PHYS-CONST", "SYSTEM", "LENGTH-KEY")
 SUFFIX_COPY = "_c18copy"
 SUFFIX_REN = "_c18ren"
 SUFFIX_DOP = "_c18"
@@ -63,9 +65,11 @@ def mrp(name: str, byte: int, rq_byte: int, length: int) -> Dict[str, Any]:
 def spec_flat() -> Dict[str, Any]:
     """One base variant, three services, multi-byte and sub-byte constant prefixes, NRC-CONST, PHYS-CONST, RESERVED,
     a parameter without BYTE-POSITION, a shared negative response, an unreferenced response, services with two positive /
-    two negative responses."""
+    two negative responses, LENGTH-KEY parameters (request and response) with the values they size, a SYSTEM parameter."""
     dops = [{"name": "u8", "dct": U(8)}, {"name": "u8b", "dct": U(8)}, {"name": "u16", "dct": U(16)},
-            {"name": "s8", "dct": U(8, "A_INT32")}, {"name": "u4", "dct": U(4)}]
+            {"name": "s8", "dct": U(8, "A_INT32")}, {"name": "u4", "dct": U(4)},
+            {"name": "blob", "dct": {"k": "PLEN", "base": "A_BYTEFIELD", "key_id": "BVF.RQ_var.len"}, "phys": "A_BYTEFIELD"},
+            {"name": "rblob", "dct": {"k": "PLEN", "base": "A_BYTEFIELD", "key_id": "BVF.PR_var.rlen"}, "phys": "A_BYTEFIELD"}]
     msgs = [
         {"kind": "REQUEST", "name": "RQ_read", "params": [cc("sid", 0x22, 0, semantic="SERVICE-ID"), cc("did", 0x0102, 1, bits=16, semantic="ID")]},
         {"kind": "POS-RESPONSE", "name": "PR_read", "params": [cc("sid", 0x62, 0, semantic="SERVICE-ID"), mrp("did", 1, 1, 2),
@@ -81,10 +85,18 @@ def spec_flat() -> Dict[str, Any]:
         {"kind": "POS-RESPONSE", "name": "PR_read_long", "params": [cc("sid", 0x62, 0, semantic="SERVICE-ID"), mrp("did", 1, 1, 2),
                                                                     val("data", "u16", 3, semantic="DATA"), val("more", "u8b", 5)]},
         {"kind": "NEG-RESPONSE", "name": "NR_busy", "params": [cc("sid", 0x7F, 0), mrp("rq_sid", 1, 0, 1), cc("nrc", 0x21, 2)]},
+        # LENGTH-KEY + a value whose length it determines (PARAM-LENGTH-INFO-TYPE), SYSTEM parameter
+        {"kind": "REQUEST", "name": "RQ_var", "params": [cc("sid", 0x2F, 0), {"t": "LENGTH-KEY", "name": "len", "byte": 1, "dop": "u8", "id": "BVF.RQ_var.len",
+                                                                             "semantic": "LENGTH"},
+                                                         val("blob", "blob", 2)]},
+        {"kind": "POS-RESPONSE", "name": "PR_var", "params": [cc("sid", 0x6F, 0), {"t": "SYSTEM", "name": "when", "byte": 1, "dop": "u8", "sysparam": "SECOND"},
+                                                              {"t": "LENGTH-KEY", "name": "rlen", "byte": 2, "dop": "u8b", "id": "BVF.PR_var.rlen"},
+                                                              val("rblob", "rblob", 3)]},
     ]
     svcs = [{"name": "read", "request": "RQ_read", "pos": ["PR_read", "PR_read_long"], "neg": ["NR_gen"], "semantic": "DATA-READ"},
             {"name": "write", "request": "RQ_write", "pos": ["PR_write"], "neg": ["NR_gen", "NR_busy"], "semantic": "DATA-WRITE"},
-            {"name": "reset", "request": "RQ_reset"}]
+            {"name": "reset", "request": "RQ_reset"},
+            {"name": "var", "request": "RQ_var", "pos": ["PR_var"], "neg": ["NR_gen"]}]
     layer = {"type": "BASE-VARIANT", "name": "BVF", "dops": dops, "msgs": msgs, "svcs": svcs}
     return {"containers": [{"name": "c18flat", "layers": [layer]}]}
 
@@ -509,7 +521,7 @@ def edit_param(files: Files, edit: str, mid: str, idx: int) -> Tuple[Files, Dict
             info["old"] = 8 * int(text(p, "BYTE-LENGTH") or "0")
             info["new"] = info["old"] + 8
             set_text(p, "BYTE-LENGTH", info["new"] // 8)
-        elif t in ("VALUE", "PHYS-CONST", "SYSTEM"):
+        elif t in DOP_PARAM_KINDS:
             dop2 = clone_dop(trees, p, "bit length")
             sd = std_int_dct(dop2.find("DIAG-CODED-TYPE")) or ("", 0)
             nb = sd[1] + 8 if sd[1] + 8 <= 32 else sd[1] - 8
@@ -529,7 +541,7 @@ def edit_param(files: Files, edit: str, mid: str, idx: int) -> Tuple[Files, Dict
                 raise NotApplicable("constant is not representable in the other integer type at this bit length")
             info["old"], info["new"] = sd[0], flip[sd[0]]
             dct.set("BASE-DATA-TYPE", flip[sd[0]])
-        elif t in ("VALUE", "PHYS-CONST", "SYSTEM"):
+        elif t in DOP_PARAM_KINDS:
             dop2 = clone_dop(trees, p, "data type")
             dct = dop2.find("DIAG-CODED-TYPE")
             old = dct.get("BASE-DATA-TYPE") or ""
